@@ -1155,15 +1155,6 @@ func c13ClientX(e *Env, forC14 bool, forced *c13Forced) {
 					// the connection ends while this DWR is still waiting for its answer
 					earlyTerm = true
 					e.Probe("terminated-with-dwr-outstanding")
-					// (the peer's own probes that are still on their way are not sent: the run ends here)
-					pending = nil
-					var keep []smcOut
-					for _, o := range w.outbox {
-						if o.what != "peer-dwr" {
-							keep = append(keep, o)
-						}
-					}
-					w.outbox = keep
 				}
 				dwaDue := false
 				for _, o := range w.outbox {
@@ -1199,6 +1190,18 @@ func c13ClientX(e *Env, forC14 bool, forced *c13Forced) {
 					e.Fault("app-write-stalled")
 				}
 			}
+		}
+		if earlyTerm {
+			// (the peer's own probes that are still on their way are not sent, and those already
+			// answered in this step have been matched above: the run ends here)
+			pending = nil
+			var keep []smcOut
+			for _, o := range w.outbox {
+				if o.what != "peer-dwr" {
+					keep = append(keep, o)
+				}
+			}
+			w.outbox = keep
 		}
 		if e.Failed() || earlyTerm {
 			break
